@@ -12,7 +12,7 @@ import numpy as np
 from rv import gen, oracle
 
 PLAN = {
-    "quick": {"cases": 840, "hashseeds": 3, "shards": 5, "timeout": 420, "min_nontrivial": 150},
+    "quick": {"cases": 2400, "hashseeds": 3, "shards": 5, "timeout": 420, "min_nontrivial": 400},
     "thorough": {"cases": 6000, "hashseeds": 12, "shards": 4, "timeout": 3000, "min_nontrivial": 1500,
                  "backends": ["numpy", "torch"], "torch_cases": 600, "torch_shards": 2, "torch_hashseeds": 1},
 }
